@@ -6,6 +6,7 @@ library call on pool values must end as a value or as a CklRuntimeError whose
 error value is a language value, within the step budget.  No expected values,
 so no model can be wrong."""
 import os
+import re
 
 from cklmon import core, matrix
 from cklmon.core import observe
@@ -44,6 +45,38 @@ SUPER_POLYNOMIAL = {"permutations"}
 BIG_POOL = {"list-big", "set-big", "map-big", "str-big"}
 
 
+HOSTISH = re.compile(r"^[A-Z][A-Za-z]*(Error|Exception|Warning)\b")
+
+
+class ResultMonitor:
+    """wraps ckl.nodes.invoke (the single call path): what a call returns is a value of the language"""
+    def __init__(self):
+        self.bad = []
+        self.calls = 0
+        self.installed = False
+
+    def install(self):
+        if self.installed:
+            return
+        import ckl.nodes
+        import ckl.values
+        orig = ckl.nodes.invoke
+        V = ckl.values.Value
+        mon = self
+
+        def invoke(fn, names_, args, environment, pos):
+            r = orig(fn, names_, args, environment, pos)
+            mon.calls += 1
+            if not isinstance(r, V) and len(mon.bad) < 50:
+                mon.bad.append((str(getattr(fn, "name", "?")), type(r).__name__))
+            return r
+        ckl.nodes.invoke = invoke
+        self.installed = ckl.nodes.invoke is invoke
+
+
+RESULTS = ResultMonitor()
+
+
 class Runner:
     def __init__(self, ctx, legacy):
         self.ctx = ctx
@@ -55,6 +88,7 @@ class Runner:
 
     def fresh(self):
         import ckl.functions
+        RESULTS.install()
         self.it, self.out = core.new_interpreter(secure=False, legacy=self.legacy, stdin_text="in1\nin2\n")
         self.Env = ckl.functions.Environment
         self.n = 0
@@ -64,6 +98,23 @@ class Runner:
         env = self.Env()
         o = observe(lambda: self.it.interpret(prog, "c13", env), BUDGET)
         self.n += 1
+        # every call made on the way must have handed back a value of the language (not a host None, str, ...)
+        if RESULTS.bad:
+            for fname, tname in sorted(set(RESULTS.bad))[:3]:
+                ctx.violation("C13:%s:call-returns-no-value:%s" % (callee, fname), "%s: the call of %s returned a host %s instead of a value" % (prog, fname, tname), {"src": prog})
+            del RESULTS.bad[:]
+        inline = getattr(names, "inline", None)
+        if inline and o.kind in ("value", "rte") and (self.n % 11 == 0 or (o.kind == "rte" and HOSTISH.match(str(getattr(o.exc, "msg", ""))))):
+            # the same call as a whole program of one expression: what a block converts into the language's error must
+            # not leave interpret raw when there is no block
+            o1 = observe(lambda: self.it.interpret(inline, "c13", self.Env()), BUDGET)
+            ctx.count("single_expression_programs")
+            del RESULTS.bad[:]
+            if o1.kind == "host":
+                ctx.violation("C13:%s:%s:%s" % (callee, type(o1.exc).__name__, o1.site[0]),
+                              "%s (the whole program) -> %s: %s" % (inline, type(o1.exc).__name__, core.safe_str(o1.exc, 100)), {"src": inline})
+            elif o1.kind == "hang":
+                self.fresh()
         if self.n % 2000 == 0:
             self.out.output = ""
         ctx.case((callee, names), nontrivial=len(names) > 0)
